@@ -475,6 +475,9 @@ class Interp:
         v = self.eval(s.exc, fr)
         if isinstance(v, VClass):
             v = VExc(v.name)
+        if not isinstance(v, VExc) and isinstance(v, VElem) and 'raise_value' in self.spec_funcs:
+            # an exception object stored as an opaque value (e.g. handed over from another thread): the contract names it
+            return self.spec_funcs['raise_value'](self, v)
         if not isinstance(v, VExc):
             raise Unsupported('raise of non-exception %r' % (v,))
         raise PyRaise(v)
@@ -924,6 +927,9 @@ class Interp:
             return VReal(z3.RealVal(repr(v)))
         if isinstance(v, str):
             return VStr(v)
+        if isinstance(v, bytes):
+            # a bytes literal is only ever passed on (delimiters): an opaque datum named after its value
+            return VElem(sym.str_elem('bytes:%r' % (v,)))
         raise Unsupported('constant %r' % (v,))
 
     def expr_Name(self, e, fr):
@@ -1628,8 +1634,12 @@ class Interp:
         if qual in self.inline or '<locals>' in qual or '<lambda>' in qual:
             return self.run_function(f, args, kwargs)
         h = self.spec_funcs.get('call_default')
-        if h is not None:
+        base = getattr(self.index, 'baseline', None)
+        new_helper = (base is not None and f.node is not None and qual not in base.functions and not _is_coroutine_def(f.node))
+        if h is not None and not new_helper:
             return h(self, 'function', qual, f.bound, args, kwargs)
+        # (a function the sources the contracts were written against do not have is a freshly extracted helper: the Herbrand
+        # summaries name the callees of the ORIGINAL text, so the helper's body is read as part of the caller)
         if f.node is not None and not _is_coroutine_def(f.node) and getattr(self, '_inline_depth', 0) < 4:
             # a helper of the repository that has no contract of its own (e.g. freshly extracted by a refactoring): its body is
             # part of the caller's verified text (exact, no abstraction); reported under `dropped`/inlined in the evidence
